@@ -83,8 +83,8 @@ func propC20(c *ctx) error {
 	}
 	r := newRng(c.seed, "C20")
 	defaultKw := []kwSpec{{"T", 0, 1, 0}, {"N", 0, 1, 2}, {"N64", 0, 1, 2}, {"X", 1, 2, 0}, {"XN", 1, 2, 3}, {"XN64", 1, 2, 3}, {"__", 0, 1, 0}, {"_n", 0, 1, 2}, {"_x", 1, 2, 0}, {"_xn", 1, 2, 3}}
-	customKw := []kwSpec{{"tr", 0, 1, 0}, {"trn", 0, 1, 2}, {"pgettext", 1, 2, 0}, {"second", 0, 2, 0}}
-	customFlag := "tr;trn:1,2;pgettext:1c,2;second:2"
+	customKw := []kwSpec{{"tr", 0, 1, 0}, {"trn", 0, 1, 2}, {"pgettext", 1, 2, 0}, {"second", 0, 2, 0}, {"zero", 0, 0, 0}}
+	customFlag := "tr;trn:1,2;pgettext:1c,2;second:2;zero:0"
 	strs := []string{"hello", "Hello, World", "it's", "say \"hi\"", "a\\b", "line1\nline2", "tab\there", "é✓", "100%", "{braces}", "${x}", "", "plural form", "ctx", "trail\\", "\\'q"}
 	work := filepath.Join(c.root, ".work", fmt.Sprintf("xtpl-%d", os.Getpid()))
 	defer os.RemoveAll(work)
